@@ -103,6 +103,158 @@ pub fn real_deframe_buffered(data: &[u8], cap: usize, chunk: usize) -> String {
     r.unwrap_or_else(|_| "panic".to_string())
 }
 
+/// a slice that counts what the parser has consumed (shared with the caller)
+struct CountSlice<'a> {
+    data: &'a [u8],
+    pos: std::rc::Rc<std::cell::Cell<usize>>,
+}
+
+impl Read for CountSlice<'_> {
+    fn read(&mut self, buf: &mut [u8]) -> std::io::Result<usize> {
+        let p = self.pos.get();
+        let n = buf.len().min(self.data.len() - p);
+        buf[..n].copy_from_slice(&self.data[p..p + n]);
+        self.pos.set(p + n);
+        Ok(n)
+    }
+}
+
+impl std::io::BufRead for CountSlice<'_> {
+    fn fill_buf(&mut self) -> std::io::Result<&[u8]> {
+        Ok(&self.data[self.pos.get()..])
+    }
+    fn consume(&mut self, amt: usize) {
+        self.pos.set((self.pos.get() + amt).min(self.data.len()));
+    }
+}
+
+/// the real packet iterator over a whole stream, at the framing level (`next_ref`, every body read
+/// to its end): `fmt.tag.cksum;...;end|eof|err`, the format of the model op `stream`
+pub fn real_stream(data: &[u8]) -> String {
+    let r = guarded(|| {
+        let pos = std::rc::Rc::new(std::cell::Cell::new(0usize));
+        let mut parser = PacketParser::new(CountSlice { data, pos: pos.clone() });
+        let mut items: Vec<String> = Vec::new();
+        loop {
+            let before = pos.get();
+            match parser.next_ref() {
+                None => {
+                    items.push(if before == data.len() { "end" } else { "eof" }.to_string());
+                    break;
+                }
+                Some(Err(_)) => {
+                    items.push("err".to_string());
+                    break;
+                }
+                Some(Ok(mut body)) => {
+                    let h = body.packet_header();
+                    let mut b = Vec::new();
+                    if body.read_to_end(&mut b).is_err() {
+                        items.push("err".to_string());
+                        break;
+                    }
+                    let fmt = match h.version() {
+                        pgp::types::PacketHeaderVersion::New => 1,
+                        pgp::types::PacketHeaderVersion::Old => 0,
+                    };
+                    let tag: u8 = h.tag().into();
+                    items.push(format!("{fmt}.{tag}.{}", cksum(&b)));
+                }
+            }
+            if items.len() > 64 {
+                items.push("runaway".to_string());
+                break;
+            }
+        }
+        items.join(";")
+    });
+    match r {
+        Ok(v) => format!("ok:{v}"),
+        Err(_) => "panic".to_string(),
+    }
+}
+
+/// random streams of framed packets (any tag, any legal framing, bodies that look like packets),
+/// some of them damaged: split by the model and by the real iterator
+fn run_streams(ctx: &mut Ctx) {
+    let n = ctx.pick(400, 6000);
+    for i in 0..n {
+        let count = ctx.rng.gen_range(1..=6usize);
+        let mut stream: Vec<u8> = Vec::new();
+        let mut made: Vec<(u8, Vec<u8>)> = Vec::new();
+        for j in 0..count {
+            let last = j + 1 == count;
+            let tag: u8 = match ctx.rng.gen_range(0..10) {
+                0..=3 => *[1u8, 2, 3, 4, 5, 6, 7, 13, 14, 17, 10, 21].get(ctx.rng.gen_range(0..12)).unwrap(),
+                4..=6 => DATA_TAGS[ctx.rng.gen_range(0..5)],
+                _ => ctx.rng.gen_range(0..64u8),
+            };
+            // bodies: patterns, or framed packets (so that a mis-split would find plausible headers)
+            let mut body: Vec<u8> = match ctx.rng.gen_range(0..4) {
+                0 => pattern(i + j, ctx.rng.gen_range(0..40usize)),
+                1 => {
+                    let inner = frame::frame_fixed(true, 13, 1, b"smuggled").unwrap_or_default();
+                    let k = ctx.rng.gen_range(0..4usize);
+                    (0..k).flat_map(|_| inner.clone()).collect()
+                }
+                2 => pattern(i * 3 + j, ctx.rng.gen_range(180..270usize)),
+                _ => Vec::new(),
+            };
+            let kind = ctx.rng.gen_range(0..10);
+            let framed = if kind < 2 && DATA_TAGS.contains(&tag) {
+                // legal partial framing: first chunk 512 (or 1024), further chunks any power of two
+                let first = ctx.rng.gen_range(9..=10u8);
+                body = pattern(i + 7 * j, (1usize << first) + ctx.rng.gen_range(0..700usize));
+                let mut segs = vec![first];
+                let mut left = body.len() - (1usize << first);
+                while left > 0 && ctx.rng.gen_bool(0.6) {
+                    let k = ctx.rng.gen_range(0..=8u8);
+                    if (1usize << k) > left { break; }
+                    segs.push(k);
+                    left -= 1usize << k;
+                }
+                frame::frame_partial(tag, &segs, &body)
+            } else if kind == 2 && last && tag < 16 {
+                Some(frame::frame_indet(tag, &body))
+            } else {
+                let new_format = tag >= 16 || ctx.rng.gen_bool(0.6);
+                let form = if new_format { [1u8, 2, 5][ctx.rng.gen_range(0..3)] } else { [0u8, 1, 2][ctx.rng.gen_range(0..3)] };
+                frame::frame_fixed(new_format, tag, form, &body).or_else(|| frame::frame_fixed(new_format, tag, if new_format { 5 } else { 2 }, &body))
+            };
+            let Some(f) = framed else { continue };
+            stream.extend_from_slice(&f);
+            made.push((tag, body));
+        }
+        // damage
+        let damage = ctx.rng.gen_range(0..10);
+        let mut damaged = false;
+        if !stream.is_empty() {
+            match damage {
+                0 => { let cut = ctx.rng.gen_range(0..stream.len()); stream.truncate(cut); damaged = true; }
+                1 => { let p = ctx.rng.gen_range(0..stream.len().min(8)); stream[p] ^= 1 << ctx.rng.gen_range(0..8); damaged = true; }
+                2 => { stream.push(ctx.rng.gen()); damaged = true; }
+                _ => {}
+            }
+        }
+        let got = real_stream(&stream);
+        ctx.case(format!("stream data={}", hx(&stream)), got.clone());
+        ctx.stat(if damaged { "stream:damaged" } else { "stream:intact" });
+        if !damaged {
+            // the property, without the model: the packets that went in come out, in order, whole
+            let want: Vec<String> = made.iter().map(|(t, b)| format!("{t}.{}", cksum(b))).collect();
+            let have: Vec<String> = got.trim_start_matches("ok:").split(';').filter(|x| x.contains('.')).map(|x| x.splitn(2, '.').nth(1).unwrap_or("").to_string()).collect();
+            ctx.oracle("stream_split_at_framing", "PacketParser::next_ref over a stream", &format!("data={}", hx(&stream)), have == want && got.ends_with("end"), &format!("got {got}, made {}", want.join(";")));
+            // the high-level iterator yields one item per packet, refused or not
+            let items = guarded(|| PacketParser::new(&stream[..]).take(70).map(|p| p.ok().map(|p| u8::from(pgp::packet::PacketTrait::packet_header(&p).tag()))).collect::<Vec<_>>());
+            let ok = match &items {
+                Ok(v) => v.len() == made.len() && v.iter().zip(&made).all(|(x, (t, _))| x.map(|x| x == *t).unwrap_or(true)),
+                Err(_) => false,
+            };
+            ctx.oracle("refused_packet_skipped_whole", "PacketParser iterator over a stream", &format!("data={}", hx(&stream)), ok, &format!("items {items:?}, made tags {:?}", made.iter().map(|(t, _)| *t).collect::<Vec<_>>()));
+        }
+    }
+}
+
 struct Desc {
     fmt: u8,
     tag: u8,
@@ -220,6 +372,7 @@ fn raw(ctx: &mut Ctx, data: &[u8], tagname: &str) {
 }
 
 pub fn run(ctx: &mut Ctx) {
+    run_streams(ctx);
     let lens: Vec<usize> = if ctx.thorough() {
         vec![0, 1, 2, 190, 191, 192, 193, 255, 256, 257, 511, 512, 513, 8383, 8384, 8385, 65535, 65536, 65537, 70000]
     } else {
